@@ -21,7 +21,7 @@ CLAIMED = {
          "Exactness of the content against the effective schema is checked only on generator-built files; under a TypeDeclaration constraint the description is compared with what hcl's typeexpr makes of the same sub-expression (nothing that is no type is described as one; the key of an object type item names its value's type).",
          "DESIGN.md §6 C12"),
  "C13": ("exploration", "bounded-exhaustive enumeration of inputs (E1 sweep), structural oracle on every token list",
-         "Token lists of every file incl. broken ones: sorted, disjoint, non-empty, advertised types, well-formed ranges; on generator-built files exactly the schema-known names/types/labels with the modifiers of all enclosing blocks, one literal token per plain literal, reference-step tokens for exactly the collected origins that resolve (a resolved plain traversal: one token per step on the step's own extent).",
+         "Token lists of every file incl. broken ones: sorted, disjoint, non-empty, advertised types, well-formed ranges; on generator-built files exactly the schema-known names/types/labels with the modifiers of all enclosing blocks, one literal token per plain literal, reference-step tokens for exactly the collected origins that resolve (a resolved plain traversal: one token per step on the step's own extent), object key tokens on exactly the items of an object literal whose key is a declared attribute written as a name.",
          "Exactness only on generator-built files. References at places the type-directed token walk does not reach are open known findings (5 situations); a literal that conforms to the declared type is not among them.",
          "DESIGN.md §6 C13"),
  "C20": ("exploration", "bounded-exhaustive enumeration of inputs (E1 sweep) and generated call grammar",
@@ -49,7 +49,7 @@ CLAIMED = {
          "Field menus are generated by kind; interface-typed fields use a registry (Constraint, Default, AddrStep).",
          "DESIGN.md §6 C17"),
  "C07": ("exploration", "bounded-exhaustive enumeration of cursors and typed prefixes in every body, compared with a reference model of the effective schema (E2 model compare)",
-         "For every structure template and seed config: every prefix of every declarable name typed on a new line in every known body, every offset inside written attribute names / block types / quoted labels, prefill off and on; the candidate list must equal (labels, kinds, order) the reference model's declarable set; every candidate is applied, re-parsed and re-validated.",
+         "For every structure template and seed config: every prefix of every declarable name typed on a new line in every known body, every offset inside written attribute names / block types / quoted labels, prefill off and on; the candidate list must equal (labels, kinds, order) the reference model's declarable set (prefixes are matched as written: the first letters are also typed in the other case); a label candidate carries the detail / description of the body its value selects on its own; every candidate is applied, re-parsed and re-validated.",
          "Exactness only on files that parse without errors; AnyAttribute placeholder and dynamic-needs-block-types encode the library's choice where the statement is silent.",
          "DESIGN.md §6 C07"),
  "C08": ("exploration", "bounded-exhaustive enumeration of value-completion cursors (E1 sweep) with per-candidate oracles and an accept / re-collect / go-to-definition round trip",
@@ -65,7 +65,7 @@ CLAIMED = {
          "Iterator variables count as written traversals; object keys only when parenthesised; only schema-known object keys (statement silent: library's choice).",
          "DESIGN.md §6 C10"),
  "C11": ("exploration", "bounded-exhaustive enumeration: every origin x every position x every definition byte in collected multi-path worlds; full synthetic universe of declaration/origin pairs against an independent matcher",
-         "Inverse (go-to-definition => find-references at every definition byte), locality of count/each/self, path of resolution, cross-path sanity of find-references, and set equality of resolutions with an independent matcher on a synthetic universe put directly into the path context.",
+         "Inverse (go-to-definition => find-references at every definition byte), locality of count/each/self, path of resolution, cross-path sanity of find-references, and set equality of resolutions with an independent matcher on a synthetic universe put directly into the path context; every reference a body in force declares an implied origin for has exactly one path origin per implying body, in whichever file it stands.",
          "Unconstrained origins resolve to typed declarations only (library's choice, statement silent); find-references inside one path over-approximates by design and is only required not to cross paths.",
          "DESIGN.md §6 C11"),
  "C16": ("exploration", "combinatorial bounded-exhaustive enumeration: all key sets x all listing orders; marker worlds x all selections x all written orders",
@@ -81,7 +81,7 @@ CLAIMED = {
          "Premises: token sequence and parser tree of the translated file equal the original's, shifted (else the case is counted as skipped); a cursor exactly at the insertion point may match either translation.",
          "DESIGN.md §6 C18"),
  "C19": ("exploration", "bounded-exhaustive differential enumeration of abstract configurations rendered in native and JSON syntax",
-         "Every abstract configuration of the generator (value forms x attribute contexts x block structures; JSON in object and array form) is rendered in both syntaxes under one schema; projections of absolute targets, of origins (with the documented weaker JSON constraints) and of the block/attribute symbol outline must be equal. The JSON renderings and their prefixes also run through the C01/C02 sweeps.",
+         "Every abstract configuration of the generator (value forms x attribute contexts x block structures; JSON in object and array form) is rendered in both syntaxes under one schema; projections of absolute targets, of origins (with the documented weaker JSON constraints) and of the block/attribute symbol outline must be equal. The JSON renderings and their prefixes also run through the C01/C02 sweeps. Part 3: in JSON files the bytes the range of an origin written as a plain string covers, escapes resolved, spell the origin's address (ranges of interpolated traversals come from hcl itself and are only counted).",
          "Block-local targets, ranges and expression-element symbols are outside the comparison as the property says.",
          "DESIGN.md §6 C19"),
 }
